@@ -300,6 +300,7 @@ func runC19(c *Ctx, tier string) {
 		}
 	}
 	_ = types.Typ
+	runClientEncodesDotSegments(c, "C19-K8")
 }
 
 var c19Exempt = map[string]string{
